@@ -2,6 +2,7 @@ package rules
 
 import (
 	"fmt"
+	"go/types"
 	"strings"
 
 	"golang.org/x/tools/go/ssa"
@@ -584,6 +585,39 @@ func ruleRefundBooked(r *core.Run) {
 					for _, d := range deltasOfFrame(r, f, fl) {
 						if d.Field == "order/types.Order.Amount" && d.Sign == -1 && d.Term != "" && d.Term == coin {
 							okDelta = true
+						}
+					}
+				}
+				// a deeper frame that lowers the amount through a POINTER to the record changes the caller's record
+				for _, fl := range all {
+					if len(fl.Chain) <= lvl || len(fl.Chain) > len(fr.Chain) {
+						continue
+					}
+					pre := true
+					for i := range fl.Chain {
+						if fl.Chain[i] != fr.Chain[i] {
+							pre = false
+						}
+					}
+					if !pre {
+						continue
+					}
+					for _, d := range deltasOfFrame(r, f, fl) {
+						if d.Field != "order/types.Order.Amount" || d.Sign != -1 || d.Term != coin || d.Term == "" {
+							continue
+						}
+						root := d.Ins.Addr
+						for {
+							if fa, ok := root.(*ssa.FieldAddr); ok {
+								root = fa.X
+								continue
+							}
+							break
+						}
+						if p, ok := root.(*ssa.Parameter); ok {
+							if _, isPtr := p.Type().Underlying().(*types.Pointer); isPtr {
+								okDelta = true
+							}
 						}
 					}
 				}
